@@ -56,6 +56,10 @@ def generic_inputs(fd, seed=0, presentation="tensors"):
             d["beta" + n] = beta[i].copy()
             d["dtbeta" + n] = dtbeta[i].copy()
         return d
+    if presentation == "dust":
+        r = rho0.copy()
+        r[: max(1, shape[0] // 3)] = 0.0          # a vacuum region
+        return {"gammadown3": gam, "Kdown3": K, "alpha": alpha, "rho0": r, "press": press}
     if presentation == "partial":
         return {"gammadown3": gam, "Kdown3": K, "alpha": alpha, "betay": beta[1].copy(), "betaz": beta[2].copy(), "Tdown4": T}
     if presentation == "minimal":
